@@ -1711,6 +1711,21 @@ class Exec:  # an execution path
 
         var_set = self.path.get_var_set(self.balance)
 
+        # the block is part of the state the next transaction starts from: a constraint on the current
+        # (symbolic) timestamp also bounds every later timestamp
+        block = self.block
+        for _val in (
+            block.basefee,
+            block.chainid,
+            block.coinbase,
+            block.difficulty,
+            block.gaslimit,
+            block.number,
+            block.timestamp,
+        ):
+            _val = _val.as_z3() if isinstance(_val, BV) else _val
+            var_set = itertools.chain(var_set, self.path.get_var_set(_val))
+
         # the keys of self.code are constant
         for _contract in self.code.values():
             _code = _contract._code
